@@ -23,7 +23,8 @@ type Spec struct {
 	Twin        bool // the second declaring package starts with a byte-identical copy of the first one's first type (api/v1 vs api/v2)
 	Transit     bool // add a package that receives values of annotated types only through an intermediate package
 	Unrelated   bool // add an annotated package that nothing imports
-	FlipDecl    bool // variant used by C06: toggle the annotations of the first declaring package's first type
+	FlipDecl    bool // unused
+	Exotic      bool // add a file of valid Go shapes outside the supported fragment (generics, embedding, aliases of predeclared types, labels, method expressions ...): FREE for every analyzer, hostile input for totality
 }
 
 // PoolTokens: exclude-paths tokens that occur in generated file names.
@@ -604,6 +605,9 @@ func Build(spec Spec) *Built {
 				fex.Decls = append(fex.Decls, decls...)
 			}
 		}
+		if spec.Exotic {
+			b.addExotic(u, infos[0].t, infos[0].env)
+		}
 		if spec.Twin {
 			// writes to the @mutable and to an ordinary field of BOTH twin types in one function
 			var body []*Node
@@ -716,4 +720,161 @@ func (b *B) addImpl(d *Pkg, f *File) {
 	mk("Circ", "nosuchpkg.Shape", []string{"IMPL01"}, nil)
 	mk("Hex", "NoSuchIface", []string{"IMPL02"}, nil)
 	mk("Oct", "&Shape", []string{"IMPL03"}, []string{"Area() string { return \"\" }", "Name() string { return \"o\" }"})
+}
+
+// addExotic: shapes outside the supported fragment. Every line is FreeAll; the file must compile.
+func (b *B) addExotic(u *Pkg, t *Type, env *Env) {
+	f := b.NewFile(u, "exotic.go")
+	T := "«" + t.Pkg.Path + "»." + t.Name
+	N := "«" + t.Pkg.Path + "»." + env.New.Name + "()"
+	R := env.Reset.Name
+	src := `type Failure = error
+type Anyx = any
+type ErrList []error
+type Gen[E any] struct{ v E }
+func (g *Gen[E]) Set(v E) { g.v = v }
+func (g Gen[E]) Get() E { return g.v }
+func MapAll[A, B any](xs []A, fn func(A) B) []B {
+	var out []B
+	for _, x := range xs {
+		out = append(out, fn(x))
+	}
+	return out
+}
+type Number interface{ ~int | ~int64 }
+func Sum[N Number](xs ...N) (s N) {
+	for _, x := range xs {
+		s += x
+	}
+	return
+}
+type Emb struct {
+	*$T
+	Extra int
+}
+type Emb2 struct{ $T }
+type Iface interface {
+	error
+	M(x *$T) $T
+}
+type fnType func(*$T) error
+type chanType chan<- *$T
+type localAlias = $T
+type ptrAlias = *$T
+type defined $T
+var exoticGlobal = func() *$T { return $N }()
+var exoticArr = [...]*$T{$N, nil}
+var exoticMap = map[string][]*$T{"a": {$N}}
+const (
+	exoticA = iota
+	exoticB
+)
+func exotic(args ...*$T) (res *$T, err Failure) {
+	var f Failure
+	_ = f
+	var a Anyx = $N
+	e := Emb{$B: $N}
+	e.F = 1
+	e.S[0] = 2
+	e.F++
+	e2 := Emb2{}
+	e2.F += 3
+	e2.$R()
+	g := Gen[*$T]{}
+	g.Set($N)
+	g.v.F = 4
+	g.Get().F = 5
+	_ = MapAll([]*$T{$N}, func(x *$T) int { x.F = 6; return x.F })
+	_ = Sum(1, 2, 3)
+outer:
+	for i := 0; i < 2; i++ {
+		for _, x := range args {
+			if x == nil {
+				continue outer
+			}
+			x.F = i
+			break outer
+		}
+	}
+	switch x := a.(type) {
+	case *$T:
+		x.F = 7
+	case nil, int:
+	default:
+		_ = x
+	}
+	me := (*$T).$R
+	me($N)
+	mv := $N.$R
+	mv()
+	var arr [2]$T
+	arr[0].F = 8
+	arr[1] = $T{}
+	m := map[string]*$T{"k": $N}
+	m["k"].F = 9
+	m["k"].M["z"] = 1
+	ch := make(chan *$T, 1)
+	ch <- $N
+	(<-ch).F = 10
+	func() {
+		defer func() { _ = recover() }()
+		var p *$T
+		p.F = 11
+	}()
+	pp := &res
+	*pp = $N
+	(*pp).F = 12
+	(**pp).F = 13
+	var la localAlias
+	la.F = 14
+	var pa ptrAlias = $N
+	pa.F = 15
+	d := defined{}
+	d.F = 16
+	_ = struct{ $T }{}
+	_ = []any{$T{}, &$T{}, new($T)}
+	var fn fnType = func(x *$T) error { x.F--; return nil }
+	_ = fn($N)
+	var ct chanType
+	_ = ct
+	if v, ok := a.(interface{ $R() }); ok {
+		v.$R()
+	}
+	goto end
+end:
+	x, y := $N, $N
+	x.F, y.F = y.F, x.F
+	x.F, _ = 1, 2
+	*x = *y
+	for x.F = range 3 {
+	}
+	for x.S[0] = range []int{1} {
+	}
+	for _, x.F = range []int{1} {
+	}
+	select {
+	case x.F = <-make(chan int):
+	case ch <- x:
+	default:
+	}
+	_ = exoticGlobal
+	_ = exoticArr
+	_ = exoticMap
+	_ = exoticA + exoticB
+	_, _ = e, e2
+	return x, nil
+}
+`
+	src = strings.ReplaceAll(src, "$B", t.Name)
+	src = strings.ReplaceAll(src, "$T", T)
+	src = strings.ReplaceAll(src, "$N", N)
+	src = strings.ReplaceAll(src, "$R", R)
+	n := &Node{}
+	for _, l := range strings.Split(strings.TrimRight(src, "\n"), "\n") {
+		ln := b.line(l)
+		ln.FreeAll = true
+		n.Pre = append(n.Pre, ln)
+	}
+	n.Pin = f.Name
+	f.Decls = append(f.Decls, n)
 }
